@@ -59,6 +59,7 @@ CONFIGS = [
     ("a", "c", ["bb", "cb", "bc"]),
 ]
 ALPHABET = "abc"
+LONGEST_FOR = (5, 6, 13, 20)        # indices into CONFIGS swept up to the longest text length (thorough)
 
 
 # ---------------------------------------------------------------------------------------
@@ -425,8 +426,8 @@ def exhaustive_plan(tier):
                         continue                  # None takes the same branches as ""
                     if end == "empty" and length > o_len - 1:
                         continue
-                    if length == 9 and ci % 3 != 0:
-                        continue                  # longest texts: every third configuration
+                    if length == 9 and ci not in LONGEST_FOR:
+                        continue                  # longest texts: four pattern-rich configurations
                 blocks.append((cfg, end, length, C.REPO, with_model))
     # longest blocks first: better load balance
     blocks.sort(key=lambda b: -b[2])
